@@ -31,9 +31,9 @@ PKG = "yv-c13"
 
 TIERS = {
     "quick": dict(cfg="MC_Procs_quick.cfg", live="MC_Procs_live_quick.cfg", depth=6, max_dfs=400, random=40,
-                  shards=4, threads=6, p1_workers=4, tlc_timeout=600),
+                  shards=4, threads=6, p1_workers=4, tlc_timeout=1500),
     "thorough": dict(cfg="MC_Procs_thorough.cfg", live="MC_Procs_live_thorough.cfg", depth=10, max_dfs=6000,
-                     random=600, shards=8, threads=8, p1_workers=8, tlc_timeout=1700),
+                     random=600, shards=8, threads=8, p1_workers=8, tlc_timeout=3000),
 }
 
 # negative configurations: variant -> what TLC must report
@@ -94,7 +94,7 @@ def _model_runs(tier, wd):
     def neg(v):
         d = os.path.join(wd, "neg-" + v)
         os.makedirs(d, exist_ok=True)
-        return vlib.tlc("Procs", f"MC_Procs_neg_{v}.cfg", workdir=d, workers=1, timeout=300, deadlock=True)
+        return vlib.tlc("Procs", f"MC_Procs_neg_{v}.cfg", workdir=d, workers=1, timeout=900, deadlock=True)
 
     with ThreadPoolExecutor(max_workers=4) as ex:
         fm = ex.submit(main)
@@ -205,37 +205,34 @@ def run(tier):
     vlib.run_harness(PKG, ["explore", "--catalogue", cat_path, "--depth", t["depth"], "--max-dfs", t["max_dfs"],
                            "--random", t["random"], "--threads", t["threads"], "--out-trace", trace,
                            "--out-summary", summ], timeout=2400)
-    runs = {}          # run -> summary
+    runs = {}          # representative run of every distinct trace -> summary (with multiplicity)
     per_script = {}    # script idx -> stats
     outcomes = {}
+    total_runs = 0
     for j in vlib.read_ndjson(summ):
         if "run" in j:
             runs[j["run"]] = j
             oc = j["digest"]["outcome"]
-            outcomes[oc] = outcomes.get(oc, 0) + 1
+            outcomes[oc] = outcomes.get(oc, 0) + j["mult"]
+            total_runs += j["mult"]
         else:
             per_script[j["script"]] = j
-    vlib.log(f"[p3] {len(runs)} runs of {len(cat)} scripts explored in {time.time() - th:.1f}s "
-             f"(outcomes {outcomes}); {sum(1 for r in runs.values() if r['fresh'])} distinct traces")
+    vlib.log(f"[p3] {total_runs} runs of {len(cat)} scripts explored in {time.time() - th:.1f}s "
+             f"(outcomes {outcomes}); {len(runs)} distinct traces")
     # expected outcome per script (TLC) vs digest of every run
-    rep_of = {}        # (script, hash) -> representative (fresh) run
-    for r in runs.values():
-        if r["fresh"]:
-            rep_of[(r["script"], r["hash"])] = r["run"]
     mismatch = {}      # representative run -> number of runs with that trace
     mult = {}
     distinct_digests = {}
-    for r in runs.values():
-        rr = rep_of[(r["script"], r["hash"])]
-        mult[rr] = mult.get(rr, 0) + 1
+    for rr, r in runs.items():
+        mult[rr] = r["mult"]
         e = cat[r["script"]]
         dd = distinct_digests.setdefault(r["script"], set())
         dd.add(json.dumps(r["digest"], sort_keys=True))
         if e["det"] and not _digest_equal(_expected(e), r["digest"]):
-            mismatch[rr] = mismatch.get(rr, 0) + 1
+            mismatch[rr] = r["mult"]
     # validation of every distinct run against Procs
     bad, nrec, tstates, tw = _validate(trace, wd, t["shards"])
-    vlib.log(f"[p3] {nrec} records of {len(rep_of)} distinct runs validated against Procs in {tw:.1f}s; "
+    vlib.log(f"[p3] {nrec} records of {len(runs)} distinct runs validated against Procs in {tw:.1f}s; "
              f"{len(bad)} run(s) rejected")
     bad_runs = {b["run"]: b for b in bad}
     for rr, cnt in mismatch.items():
@@ -267,11 +264,11 @@ def run(tier):
         "depth_main_model": rm.depth,
         "liveness_states": rl.distinct,
         "negative_configs": neg_found,
-        "traces_validated_against_impl": len(rep_of),
+        "traces_validated_against_impl": len(runs),
         "trace_records_validated": nrec,
         "samples": samples,
-        "evaluations": len(runs),
-        "distinct_nontrivial": len(rep_of),
+        "evaluations": total_runs,
+        "distinct_nontrivial": len(runs),
         "rule": "one run = one script of the TLC-generated catalogue under one schedule of the simulated processes; "
                 "distinct = distinct sequences of (actor, probes, forks, reaps, exit) batches; every distinct run is "
                 "validated by TLC against Procs.tla, every run of a deterministic script is compared with the "
